@@ -3333,3 +3333,46 @@ pub(crate) fn verif_read_residual_data(
     let (blocks, non_zero) = d.read_residual_data(&mb, 0, 0)?;
     Ok((blocks.to_vec(), non_zero, d.top[0].complexity, d.left.complexity))
 }
+
+/// `intra_predict_luma` + `intra_predict_chroma` for one macroblock of a frame of `mbw` x `mbh`
+/// macroblocks with caller-supplied planes, borders, modes (as their stream values) and residue.
+/// Returns the planes and the two luma borders afterwards.
+#[cfg(image_webp_verif)]
+#[allow(clippy::too_many_arguments, clippy::type_complexity)]
+pub(crate) fn verif_intra_predict(
+    mbw: u16,
+    mbh: u16,
+    mbx: usize,
+    mby: usize,
+    luma_mode: i8,
+    chroma_mode: i8,
+    bmodes: [i8; 16],
+    resdata: &[i32],
+    top_border: &[u8],
+    left_border: &[u8],
+    ybuf: &[u8],
+    ubuf: &[u8],
+    vbuf: &[u8],
+) -> Option<(Vec<u8>, Vec<u8>, Vec<u8>, Vec<u8>, Vec<u8>)> {
+    let mut d = Vp8Decoder::new(std::io::empty());
+    d.mbwidth = mbw;
+    d.mbheight = mbh;
+    d.frame.width = mbw * 16;
+    d.frame.height = mbh * 16;
+    d.frame.ybuf = ybuf.to_vec();
+    d.frame.ubuf = ubuf.to_vec();
+    d.frame.vbuf = vbuf.to_vec();
+    d.top_border = top_border.to_vec();
+    d.left_border = left_border.to_vec();
+    let mut mb = MacroBlock {
+        luma_mode: LumaMode::from_i8(luma_mode)?,
+        chroma_mode: ChromaMode::from_i8(chroma_mode)?,
+        ..Default::default()
+    };
+    for (b, &m) in mb.bpred.iter_mut().zip(bmodes.iter()) {
+        *b = IntraMode::from_i8(m)?;
+    }
+    d.intra_predict_luma(mbx, mby, &mb, resdata);
+    d.intra_predict_chroma(mbx, mby, &mb, resdata);
+    Some((d.frame.ybuf, d.frame.ubuf, d.frame.vbuf, d.top_border, d.left_border))
+}
